@@ -387,8 +387,31 @@ def rule_bucket_race(ctx):
     problems = []
     if not (expected[0] == "call" and str(expected[1]).endswith("ptr::null_mut")):
         problems.append("expected value of the CAS is not null: %s" % show(expected))
-    if not (new[0] == "call" and new[1] == "boxcar::Bucket::<T>::alloc"):
+    raw_new = new
+    while raw_new[0] in ("ref", "deref", "cast"):
+        raw_new = raw_new[2] if raw_new[0] == "cast" else raw_new[1]
+    alloc_id = raw_new[4] if raw_new[0] == "call" and len(raw_new) > 4 else None
+    after_cas = fn.reach_from(t["target"]) if t["target"] is not None else set()
+
+    def mentions_fresh(e):
+        return alloc_id is not None and any(x[0] == "call" and len(x) > 4 and x[4] == alloc_id for x in walk(e))
+    # (a) what is installed is a bucket whose flags are already initialised: Bucket::alloc's result, or a raw allocation
+    #     whose flags were written (AtomicBool::new(false) through the fresh pointer) before the CAS
+    if raw_new[0] == "call" and raw_new[1] == "boxcar::Bucket::<T>::alloc":
+        pass
+    elif raw_new[0] == "call" and str(raw_new[1]).endswith("alloc::alloc"):
+        pre = [wb for wb, wt in fn.calls(lambda t: callee(t).endswith("::write")) if wb not in after_cas and bi in fn.reach_from(wb)
+               and mentions_fresh(fn.expr_of_operand(wt["args"][0]))]
+        if not pre:
+            problems.append("the installed bucket is a raw allocation whose `active` flags are not initialised before the CAS publishes it")
+    else:
         problems.append("new value is not a fresh Bucket::alloc")
+    # (b) nothing writes through the fresh pointer once it is published: a concurrent writer may already have set a flag
+    for wb, wt in fn.calls():
+        if wb in after_cas and wb != bi and not any(callee(wt).endswith(x) for x in ("::dealloc",)):
+            if any(mentions_fresh(fn.expr_of_operand(a)) for a in wt["args"]) and (callee(wt).endswith("::write") or callee(wt).endswith("::write_bytes") or callee(wt).endswith("::store")):
+                problems.append("the fresh bucket is written through after the CAS has published it (%s at %s): a flag that a concurrent writer has already set is overwritten and a completed push becomes unreadable" % (callee(wt).rsplit("::", 1)[-1], site(fn, wb)))
+                break
     if atomic_op(t) == "compare_exchange_weak":
         problems.append("compare_exchange_weak may fail spuriously: the fresh bucket would be freed and a null pointer returned")
     # per decision path (match, if-let, early return…): the winner returns the fresh pointer and frees nothing;
@@ -396,9 +419,24 @@ def rule_bucket_race(ctx):
     # pointer found in the bucket
     from cfg import decision_paths
     cas_id = (bi, t["dest"]["l"])
-    alloc_id = new[4] if new[0] == "call" else None
     seen_out = set()
-    for conds, res, calls in decision_paths(fn, with_calls=True):
+    try:
+        paths = decision_paths(fn, with_calls=True)
+    except Inconclusive:
+        if problems:
+            ctx.violation(key, site(fn, bi), "; ".join(problems))
+            return
+        # a loop in front of the CAS (flags initialised in place): look at the part from the CAS on
+        paths = decision_paths(fn, with_calls=True, start=bi, free_locals=True)
+
+    def unfree(e):
+        if isinstance(e, tuple) and e and e[0] == "free":
+            try:
+                return fn.expr_of_local(e[1])
+            except Exception:
+                return e
+        return e
+    for conds, res, calls in paths:
         outcome = None
         for d, chosen, allv in conds:
             if d[0] == "discr" and isinstance(d[1], tuple) and d[1][0] == "call" and d[1][4] == cas_id:
@@ -412,9 +450,9 @@ def rule_bucket_race(ctx):
             continue
         seen_out.add(outcome)
         deallocs = [c for c in calls if c[0] == "boxcar::Bucket::<T>::dealloc"]
-        r = res
+        r = unfree(res)
         while r is not None and r[0] in ("ref", "deref", "cast"):
-            r = r[2] if r[0] == "cast" else r[1]
+            r = unfree(r[2] if r[0] == "cast" else r[1])
         if outcome == "ok":
             if not (r is not None and r[0] == "call" and r[4] == alloc_id):
                 problems.append("winner does not return the pointer it installed: %s" % show(res))
@@ -428,12 +466,18 @@ def rule_bucket_race(ctx):
                 problems.append("loser does not free its own allocation exactly once")
             else:
                 dargs = deallocs[0][2]
-                a0 = dargs[0]
+                a0 = unfree(dargs[0])
                 while a0[0] in ("ref", "deref", "cast"):
-                    a0 = a0[2] if a0[0] == "cast" else a0[1]
+                    a0 = unfree(a0[2] if a0[0] == "cast" else a0[1])
                 if not (a0[0] == "call" and a0[4] == alloc_id):
                     problems.append("loser frees %s instead of its own fresh allocation" % show(dargs[0]))
-                alloc_args = new[2] if new[0] == "call" else ()
+                alloc_args = raw_new[2] if raw_new[0] == "call" else ()
+                if raw_new[0] == "call" and str(raw_new[1]).endswith("alloc::alloc"):
+                    # raw allocation: (len, cols) are the arguments of the layout it was allocated with
+                    lay = [x for x in walk(raw_new[2][0]) if x[0] == "call" and str(x[1]).endswith("Bucket::<T>::layout")]
+                    if lay:
+                        inner = [x for x in walk(lay[0][2][1]) if x[0] == "call" and str(x[1]).endswith("Entry::<T>::layout")]
+                        alloc_args = (lay[0][2][0], inner[0][2][0]) if inner else ()
                 if tuple(canon(x) for x in dargs[1:]) != tuple(canon(x) for x in alloc_args):
                     problems.append("dealloc (len, cols) differ from the alloc (len, cols)")
     if seen_out != {"ok", "err"}:
